@@ -571,6 +571,7 @@ pub fn run_scenarios(scs: &[Value]) -> (Vec<String>, Vec<Value>) {
         PSCALE.store(sc["pscale"].as_u64().unwrap_or(1).max(1), std::sync::atomic::Ordering::Relaxed);
         TSOFF.store(sc["tsoff"].as_str().and_then(|x| x.parse::<u64>().ok()).or(sc["tsoff"].as_u64()).unwrap_or(0), std::sync::atomic::Ordering::Relaxed);
         ULID_IDS.store(sc["ulid"].as_bool().unwrap_or(false), std::sync::atomic::Ordering::Relaxed);
+        TWIN_IDS.store(sc["twins"].as_bool().unwrap_or(false), std::sync::atomic::Ordering::Relaxed);
         let micro = sc["log"].as_str().unwrap_or("micro") == "micro";
         let sd = &sc["sched"];
         let mode = sd["mode"].as_str().unwrap_or("fixed");
